@@ -2837,6 +2837,7 @@ func c11RuleL(w *World, r *Report, subjects []*ssa.Function, derefs map[*ssa.Fun
 	}
 	linkBad := map[string][]string{}
 	linkSeen := map[string]int{}
+	memberKept := map[string]string{}
 	for _, fn := range subjects {
 		lookupCounts := map[string]int{}
 		forEachInstr(fn, func(b *ssa.BasicBlock, ins ssa.Instruction) {
@@ -2856,6 +2857,24 @@ func c11RuleL(w *World, r *Report, subjects []*ssa.Function, derefs map[*ssa.Fun
 				why := w.lookupMisuse(x, derefs, validated)
 				if why != "" && presenceGuarded(fn, x) {
 					why = ""
+					// "the entry exists" says nothing about a pointer-like member of the entry: that needs every stored record to
+					// have it (an alias entry registered with a nil attribute is present and crashes `entry.Attr.GetType()`)
+					if st, ok := mt.Elem().Underlying().(*types.Struct); ok {
+						for i := 0; i < st.NumFields(); i++ {
+							if !pointerish(st.Field(i).Type()) {
+								continue
+							}
+							ck := fmt.Sprintf("%s#%d", normMapDesc(x.X), i)
+							res, done := memberKept[ck]
+							if !done {
+								res = w.insertedRecordsKeepMember(normMapDesc(x.X), i, w.ctxTable())
+								memberKept[ck] = res
+							}
+							if res != "" {
+								why = "the entry is known to exist, but its member " + st.Field(i).Name() + " is dereferenced and not every record stored in the table has one: " + res
+							}
+						}
+					}
 				}
 				if why != "" && w.coInserted(x) {
 					why = "" // the key is the name of an element of a list that is only ever extended together with this map
